@@ -1,9 +1,39 @@
 (* C13 — property theorems (statements only; proofs live in Proofs*.v). *)
 From Coq Require Import ZArith NArith QArith Bool List.
-Require Import QV.C13.Model QV.C13.Spec QV.C13.Proofs.
+Require Import QV.C13.Model QV.C13.Pure QV.C13.Spec QV.C13.Proofs QV.C13.ProofsViews.
 Import ListNotations.
 
-(* membership is membership in the domain of the denoted mapping *)
+(* membership is membership in the domain of the denoted mapping (no well-formedness needed) *)
 Theorem C13_contains_domain : forall s x, contains s x = mem x (domain s).
 Proof. exact contains_domain. Qed.
 Print Assumptions C13_contains_domain.
+
+(* every access path, computed without memoisation, agrees with the denoted mapping *)
+Theorem C13_views_nocache : forall s d, wf_scope s = true -> denote_scope s = Ok d ->
+  (forall x, pget s x = of_opt (lookup d x)) /\
+  (forall x, contains s x = is_some (lookup d x)) /\
+  pkeys s = Ok (domain s) /\ piter s = Ok (domain s) /\ plen s = Ok (Z.of_nat (length (domain s))) /\
+  exists d', pasd s = Ok d' /\ pitems s = Ok d' /\ map fst d' = domain s /\ forall x, lookup d' x = lookup d x.
+Proof.
+  intros s d Hwf Hd.
+  destruct (pkeys_pasd_denote s Hwf d Hd) as [Hk [d' [Ha [Hf Hl]]]].
+  destruct (piter_plen_denote s Hwf d Hd) as [Hi Hn].
+  split; [exact (pget_denote s Hwf d Hd)|].
+  split; [intros x; rewrite contains_domain; symmetry; exact (denote_domain s Hwf d Hd x)|].
+  split; [exact Hk|]. split; [exact Hi|]. split; [exact Hn|].
+  exists d'. rewrite pitems_pasd. auto.
+Qed.
+Print Assumptions C13_views_nocache.
+
+(* a parameter is reported volatile exactly when it depends on a constant marked volatile (loop index shadows) *)
+Theorem C13_volatile_nocache : forall s ks, wf_scope s = true -> pvol s = Ok ks ->
+  forall x, mem x ks = depends_on_volatile s x.
+Proof. intros s ks Hwf Hv. exact (pvol_depends s Hwf ks Hv). Qed.
+Print Assumptions C13_volatile_nocache.
+
+(* change_constants yields (syntactically) the scope rebuilt from the changed constants, whatever the caches
+   hold; it warns exactly when a constant that is not marked volatile is changed *)
+Theorem C13_change : forall s c nc,
+  ch_scope (cc s c nc) = rebuild s nc /\ ch_warned (cc s c nc) = changes_non_volatile s nc.
+Proof. intros s c nc. split; [exact (proj1 (cc_scope_rebuild s c nc))|exact (cc_warned s c nc)]. Qed.
+Print Assumptions C13_change.
